@@ -265,45 +265,65 @@ LifeOutputOK(S, c) ==
 (* guard compares a compound value (a matrix, a parameter array, a pair of offsets), the value    *)
 (* set contains a base value and values that differ from it in ONE field only, for every field:   *)
 (* a guard that compares fewer fields than there are keeps a stale value for one of them.         *)
-(*   t   transform  0 NULL, 1 identity matrix passed by value, 2 a base matrix M,                 *)
-(*                  2 + k (k = 1..9) M with only its k-th entry (row-major) changed               *)
+(* ... and "coinciding" values, in which a field takes the value ANOTHER field has in the base     *)
+(* value, or two fields are exchanged: a guard that compares the wrong pair of fields is exposed    *)
+(* only by those.  Fields(n, v) gives the fields symbolically, in memory order.                     *)
+(*   t   transform  0 NULL, 1 identity matrix passed by value, 2 a base matrix M = <<1..9>>,          *)
+(*                  2 + k (k = 1..9) M with only its k-th entry (row-major) changed,                  *)
+(*                  12 / 13 / 14 M with m00<->m11 / tx<->ty / m01<->m10 exchanged,                    *)
+(*                  15 m11 := m00, 16 ty := tx, 17 m00 := m11, 18 tx := ty                            *)
 (*   f   filter     0 nearest, 1 bilinear,                                                        *)
 (*                  2 convolution kernel K (3x3), 3 K passed from another buffer, 4 / 5 / 6 K     *)
-(*                  with only its first / a middle / its last coefficient changed, 7 a kernel of  *)
-(*                  another size, 8 separable convolution S, 9 / 10 / 11 S with only its first /  *)
-(*                  a middle / its last tap changed (same header, same size)                      *)
+(*                  with only its first / a middle / its last coefficient changed, 7 a 3x1 kernel,*)
+(*                  8 separable convolution S, 9 / 10 / 11 S with only its first / a middle / its *)
+(*                  last tap changed (same header, same size), 12 K with last := first, 13 K with *)
+(*                  first <-> middle, 14 the 3x1 kernel as 1x3 (width <-> height), 15 S with      *)
+(*                  first <-> last tap                                                            *)
 (*   r   repeat     0 none, 1 normal, 2 pad, 3 reflect                                            *)
 (*   c   clip       0 NULL, 1 one rectangle, 2 two rectangles, 3 / 4 the same two with only the   *)
-(*                  last / the first rectangle changed                                            *)
+(*                  last / the first rectangle changed, 5 the two with x2 <-> y2 of the first,    *)
+(*                  6 the one rectangle with x1 <-> y1                                            *)
 (*   sc  source clipping, cc has_client_clip, ca component alpha, acc accessors: 0 / 1            *)
-(*   am  alpha map  0 none, 1 image A, 2 image B;  ao its origin (x, y): bit 0 changes x, bit 1 y *)
+(*   am  alpha map  0 none, 1 image A, 2 image B;  ao its origin (x, y) = (v % 3, v / 3), both    *)
+(*                  coordinates over the same three values, so that new y = old x etc. occur      *)
 (*   pal palette    0 none, 1, 2, 3 = the contents of 1 at another address (indexed formats)      *)
-(*   d   dither     0 none, 1, 2;  dof dither offset (x, y): bit 0 changes x, bit 1 changes y     *)
+(*   d   dither     0 none, 1, 2;  dof dither offset (x, y) = (v % 3, v / 3), as for ao           *)
 (*   ma  accessors of alpha-map image A: 0 / 1 (a property of the attached image that the         *)
 (*       holder's validate must pick up)                                                          *)
 PropNames == {"t", "f", "r", "c", "sc", "cc", "am", "ao", "ca", "acc", "pal", "d", "dof", "ma"}
 PropRange(n) ==
-    CASE n = "t" -> 0..11 [] n = "f" -> 0..11 [] n = "r" -> 0..3 [] n = "c" -> 0..4
-      [] n = "am" -> 0..2 [] n = "ao" -> 0..3 [] n = "pal" -> 1..3 [] n = "d" -> 0..2 [] n = "dof" -> 0..3
+    CASE n = "t" -> 0..18 [] n = "f" -> 0..15 [] n = "r" -> 0..3 [] n = "c" -> 0..6
+      [] n = "am" -> 0..2 [] n = "ao" -> 0..8 [] n = "pal" -> 1..3 [] n = "d" -> 0..2 [] n = "dof" -> 0..8
       [] OTHER -> 0..1
 Defaults == [t |-> 0, f |-> 0, r |-> 0, c |-> 0, sc |-> 0, cc |-> 0, am |-> 0, ao |-> 0, ca |-> 0, acc |-> 0,
              pal |-> 0, d |-> 0, dof |-> 0, ma |-> 0]
 
 (* the fields of a compound value, in the order in which they lie in memory *)
-FilterFields(v) ==
+FilterFields(v) ==      \* kind, width, height, first / a middle / last coefficient (symbols)
     CASE v = 0 -> <<"nearest">> [] v = 1 -> <<"bilinear">>
-      [] v \in {2, 3} -> <<"conv", 3, 0, 0, 0>> [] v = 4 -> <<"conv", 3, 1, 0, 0>>
-      [] v = 5 -> <<"conv", 3, 0, 1, 0>> [] v = 6 -> <<"conv", 3, 0, 0, 1>>
-      [] v = 7 -> <<"conv", 1, 0, 0, 0>>
-      [] v = 8 -> <<"sep", 2, 0, 0, 0>> [] v = 9 -> <<"sep", 2, 1, 0, 0>>
-      [] v = 10 -> <<"sep", 2, 0, 1, 0>> [] v = 11 -> <<"sep", 2, 0, 0, 1>>
+      [] v \in {2, 3} -> <<"conv", 3, 3, 1, 2, 3>> [] v = 4 -> <<"conv", 3, 3, 9, 2, 3>>
+      [] v = 5 -> <<"conv", 3, 3, 1, 9, 3>> [] v = 6 -> <<"conv", 3, 3, 1, 2, 9>>
+      [] v = 7 -> <<"conv", 3, 1, 1, 2, 3>>
+      [] v = 8 -> <<"sep", 2, 1, 1, 2, 3>> [] v = 9 -> <<"sep", 2, 1, 9, 2, 3>>
+      [] v = 10 -> <<"sep", 2, 1, 1, 9, 3>> [] v = 11 -> <<"sep", 2, 1, 1, 2, 9>>
+      [] v = 12 -> <<"conv", 3, 3, 1, 2, 1>> [] v = 13 -> <<"conv", 3, 3, 2, 1, 3>>
+      [] v = 14 -> <<"conv", 1, 3, 1, 2, 3>> [] v = 15 -> <<"sep", 2, 1, 3, 2, 1>>
 ClipFields(v) ==
     CASE v = 0 -> <<>> [] v = 1 -> <<"r">> [] v = 2 -> <<"a", "b">> [] v = 3 -> <<"a", "b2">> [] v = 4 -> <<"a2", "b">>
+      [] v = 5 -> <<"a swapped", "b">> [] v = 6 -> <<"r swapped">>
+Exchange(q, i, j) == [q EXCEPT ![i] = q[j], ![j] = q[i]]
+MatrixFields(v) ==
+    LET M == <<1, 2, 3, 4, 5, 6, 7, 8, 9>> IN
+    CASE v <= 1 -> <<"none">> [] v = 2 -> M
+      [] v \in 3..11 -> [M EXCEPT ![v - 2] = 10]
+      [] v = 12 -> Exchange(M, 1, 5) [] v = 13 -> Exchange(M, 3, 6) [] v = 14 -> Exchange(M, 2, 4)
+      [] v = 15 -> [M EXCEPT ![5] = 1] [] v = 16 -> [M EXCEPT ![6] = 3]
+      [] v = 17 -> [M EXCEPT ![1] = 5] [] v = 18 -> [M EXCEPT ![3] = 6]
 Fields(n, v) ==
-    CASE n = "t" -> (IF v <= 1 THEN <<"none">> ELSE [k \in 1..9 |-> IF v = 2 + k THEN 1 ELSE 0])
+    CASE n = "t" -> MatrixFields(v)
       [] n = "f" -> FilterFields(v)
       [] n = "c" -> ClipFields(v)
-      [] n \in {"ao", "dof"} -> <<v % 2, v \div 2>>
+      [] n \in {"ao", "dof"} -> <<v % 3, v \div 3>>
       [] OTHER -> <<v>>
 
 (* the value a property has once v was set: an identity matrix is no transform; kernel K is kernel K  *)
@@ -341,13 +361,19 @@ EarlyReturn(P, n, v) ==
               \/ /\ Norm(n, v) # 0 /\ cur # 0
                  /\ IF "guard_transform_class" \in Bugs THEN TRUE
                     ELSE IF "guard_transform_prefix" \in Bugs THEN Prefix(Fields(n, v), 6) = Prefix(Fields(n, cur), 6)
+                    ELSE IF "guard_transform_wrong_pair" \in Bugs      \* new m11 compared with the stored m00
+                    THEN \A k \in 1..9 : Fields(n, v)[k] = Fields(n, cur)[IF k = 5 THEN 1 ELSE k]
                     ELSE Fields(n, v) = Fields(n, cur)
       [] n = "f" ->   \* params == common->filter_params && filter == common->filter: only NULL params can be equal
               IF "guard_filter_kind" \in Bugs THEN FilterKind(v) = FilterKind(cur)
               ELSE IF "guard_filter_prefix" \in Bugs      \* "already in effect", comparing kind, size, first coefficient
-              THEN Prefix(Fields(n, v), 3) = Prefix(Fields(n, cur), 3)
+              THEN Prefix(Fields(n, v), 4) = Prefix(Fields(n, cur), 4)
               ELSE v \in {0, 1} /\ cur = v
       [] n = "dof" -> IF "guard_dof_x_only" \in Bugs THEN Fields(n, v)[1] = Fields(n, cur)[1] ELSE cur = v
+      [] n = "ao" ->    \* no early return in pixman-image.c; the wrong design: "same map, same x, and y unchanged"
+                      \* written with the stored x where the stored y belongs
+              /\ "guard_ao_wrong_pair" \in Bugs
+              /\ Fields(n, v)[1] = Fields(n, cur)[1] /\ Fields(n, v)[2] = Fields(n, cur)[1]
       [] n = "pal" -> cur = v                 \* the pointer is compared (and stored), not the contents
       [] n \in {"r", "sc", "ca", "d"} -> cur = v
       [] n = "ma" -> FALSE
